@@ -38,5 +38,7 @@ def run(ctx, rep):
     rep.floor("R01e", ng, 2, "heartbeat freshness tests (user readers + builtin readers)")
     for k, v in counts.items():
         rep.floor("R01e-" + k.split("::")[-1], v, 2, "calls to %s in handle_heartbeat_submessage" % k)
+    ng = R.periodic_heartbeat_solicits_ack(fx, rep, "R01g")
+    rep.floor("R01g", ng, 3, "periodic heartbeat + reader must_send_acknacks sites")
     n6 = R.sends_guarded_by_first_relevant(fx, b4, adder(rep, b4), "R01f")
     rep.floor("R01f", n6, 4, "DATA/DATA_FRAG constructions in write_message_reliable")
